@@ -272,7 +272,13 @@ impl Visitor<'_, '_> {
         return_keyword: ast::TokenSpan,
         expr: &Option<Sp<ast::Expr>>,
     ) -> ImplResult {
-        let func_state = self.cur_func_stack.last_mut().expect("return outside of function?!");
+        if self.cur_func_stack.is_empty() {
+            return Err(self.ctx.emitter.emit(error!(
+                message("return outside of a function"),
+                primary(return_keyword.span, "not inside a function body"),
+            )));
+        }
+        let func_state = self.cur_func_stack.last_mut().expect("just checked");
         func_state.missing_return = false;
 
         let func_def_id = func_state.func_def_id;
